@@ -37,6 +37,46 @@ pub struct RTable {
 pub struct RegCase {
     pub table: RTable,
     pub width: usize,
+    /// layout options that must not disturb the table structure
+    #[serde(default, skip_serializing_if = "TableOpts::is_default")]
+    pub opts: TableOpts,
+}
+
+#[derive(Clone, Debug, Default, Serialize, Deserialize, PartialEq, Eq, Hash)]
+pub struct TableOpts {
+    #[serde(default)]
+    pub pad: bool,
+    #[serde(default)]
+    pub max_wrap: Option<usize>,
+    #[serde(default)]
+    pub min_wrap: Option<usize>,
+    #[serde(default)]
+    pub rich: bool,
+}
+
+impl TableOpts {
+    pub fn is_default(&self) -> bool {
+        *self == TableOpts::default()
+    }
+    pub fn cfg(&self) -> crate::cfg::CfgSpec {
+        let mut c = if self.rich { crate::cfg::CfgSpec::rich() } else { crate::cfg::CfgSpec::plain() };
+        c.pad = self.pad;
+        c.max_wrap = self.max_wrap;
+        c.min_wrap = self.min_wrap;
+        c
+    }
+    pub fn brief(&self) -> String {
+        if self.is_default() { "default".into() } else { format!("{:?}", self) }
+    }
+}
+
+pub fn table_opts() -> BoxedStrategy<TableOpts> {
+    prop_oneof![
+        3 => Just(TableOpts::default()),
+        2 => (any::<bool>(), prop::option::weighted(0.6, 1usize..=40), prop::option::weighted(0.3, 0usize..=8), any::<bool>())
+            .prop_map(|(pad, max_wrap, min_wrap, rich)| TableOpts { pad, max_wrap, min_wrap, rich }),
+    ]
+    .boxed()
 }
 
 fn txt(words: &[u8], cls: Cls) -> Inline {
@@ -184,7 +224,7 @@ pub fn rtable(depth: u32, max_cols: usize, max_rows: usize) -> BoxedStrategy<RTa
 }
 
 pub fn reg_case() -> BoxedStrategy<RegCase> {
-    (prop_oneof![3 => rtable(0, 6, 5), 1 => rtable(1, 4, 3)], 1usize..=100).prop_map(|(table, width)| RegCase { table, width }).boxed()
+    (prop_oneof![3 => rtable(0, 6, 5), 1 => rtable(1, 4, 3)], 1usize..=100, table_opts()).prop_map(|(table, width, opts)| RegCase { table, width, opts }).boxed()
 }
 
 /// All regular tables up to `max_rows` x `max_cols` over {empty, short, long} and every tiling.
